@@ -122,7 +122,14 @@ pub fn alphabet() -> Vec<(String, Event)> {
     ] {
         v.push((n.to_string(), Event::Key(KeyEvent::new(k, KeyModifiers::NONE))));
     }
-    v.push(("Ctrl-j".to_string(), Event::Key(KeyEvent::new(KeyCode::Char('j'), KeyModifiers::CONTROL))));
+    // the same characters with a modifier held (terminals in raw mode deliver Ctrl+c etc. as key events)
+    for c in ['j', 'k', 'g', 'q', 'a', 'c', 'v', '.', 'f', 'l', '-', '/', 'x', 'd', 'z'] {
+        v.push((format!("Ctrl-{c}"), Event::Key(KeyEvent::new(KeyCode::Char(c), KeyModifiers::CONTROL))));
+        v.push((format!("Alt-{c}"), Event::Key(KeyEvent::new(KeyCode::Char(c), KeyModifiers::ALT))));
+    }
+    for (n, k) in [("Ctrl-Esc", KeyCode::Esc), ("Ctrl-Enter", KeyCode::Enter), ("Shift-Up", KeyCode::Up), ("Alt-Home", KeyCode::Home)] {
+        v.push((n.to_string(), Event::Key(KeyEvent::new(k, if n.starts_with("Ctrl") { KeyModifiers::CONTROL } else if n.starts_with("Alt") { KeyModifiers::ALT } else { KeyModifiers::SHIFT }))));
+    }
     for w in [0u16, 80, 131, u16::MAX] {
         v.push((format!("Tick({w})"), Event::Tick(w)));
     }
@@ -152,8 +159,19 @@ pub fn canon(mut s: St) -> St {
     s
 }
 
+/// the key code behind an event name: the handler dispatches on the code alone, so a documented key pressed with
+/// a modifier is still that key (Ctrl-q is q), and is judged as such
+fn base_name(name: &str) -> String {
+    for p in ["Ctrl-", "Alt-", "Shift-"] {
+        if let Some(rest) = name.strip_prefix(p) {
+            return if rest.chars().count() == 1 { format!("Char({rest})") } else { rest.to_string() };
+        }
+    }
+    name.to_string()
+}
+
 fn is_char(name: &str, c: char) -> bool {
-    name == format!("Char({c})")
+    base_name(name) == format!("Char({c})")
 }
 
 /// The invariants of the property on one transition. Returns (class, text).
@@ -186,11 +204,12 @@ pub fn judge(s: &St, name: &str, r: &Result<St, String>) -> Option<(String, Stri
             }
         }
     }
-    if t.quit != s.quit && !(!s.search && (is_char(name, 'q') || name == "Esc")) {
+    let base = base_name(name);
+    if t.quit != s.quit && !(!s.search && (is_char(name, 'q') || base == "Esc")) {
         return Some(("quit-flag".into(), format!("should_quit changed on {name} (search mode: {})", s.search)));
     }
     if t.search != s.search {
-        let ok = if t.search { !s.search && is_char(name, '/') } else { name == "Enter" || name == "Esc" };
+        let ok = if t.search { !s.search && is_char(name, '/') } else { base == "Enter" || base == "Esc" };
         if !ok {
             return Some(("search-flag".into(), format!("is_search_mode changed to {} on {name}", t.search)));
         }
